@@ -22,12 +22,13 @@ import (
 func newBigFloat() *big.Float { return new(big.Float) }
 
 var (
-	strPool   = []string{"", "a", "b", "x y", "ünï", "zz", "0", "q\"uo\\te\nline", "a", strings.Repeat("long-", 700)}
-	keyPool   = []string{"k1", "k2", "k3", "key four", "K1", "k.1/é"}
-	int32Pool = []int64{0, 1, -1, 42, math.MaxInt32, math.MinInt32}
-	int64Pool = []int64{0, 1, -1, 4242, math.MaxInt64, math.MinInt64}
-	u32Pool   = []uint64{0, 1, 77, math.MaxUint32}
-	u64Pool   = []uint64{0, 1, 99, math.MaxInt64}
+	strPool      = []string{"", "a", "b", "x y", "ünï", "zz", "0", "q\"uo\\te\nline", "a", strings.Repeat("long-", 700)}
+	rawBytesPool = []string{"\xff\xfe\x80", "\xc3", "\x00", "a\xffb", "\x00\x00", "\xed\xa0\x80", "ok\xc3"}
+	keyPool      = []string{"k1", "k2", "k3", "key four", "K1", "k.1/é"}
+	int32Pool    = []int64{0, 1, -1, 42, math.MaxInt32, math.MinInt32}
+	int64Pool    = []int64{0, 1, -1, 4242, math.MaxInt64, math.MinInt64}
+	u32Pool      = []uint64{0, 1, 77, math.MaxUint32}
+	u64Pool      = []uint64{0, 1, 99, math.MaxInt64}
 	// struct side only: the Int64 attribute carries values above MaxInt64 as negative numbers and back
 	u64Struct = []uint64{0, 1, 99, math.MaxInt64, math.MaxInt64 + 1, math.MaxUint64}
 	f32Pool   = []float64{0, 1.5, -2.25, float64(float32(3.4e38)), float64(float32(1e-30))}
@@ -122,6 +123,10 @@ func genScalar(t *rapid.T, f *spec.Field, typ reflect.Type, label string) reflec
 	case spec.KString:
 		return conv(pick(t, strPool, label))
 	case spec.KBytes:
+		// byte strings need not be text: payloads that are not valid UTF-8, NUL bytes
+		if coin(t, 1, 4, label+"/raw") {
+			return conv([]byte(pick(t, rawBytesPool, label+"/rawv")))
+		}
 		s := pick(t, strPool, label)
 		if s == "" && coin(t, 1, 2, label+"/nil") {
 			return reflect.Zero(typ)
